@@ -149,6 +149,18 @@ Example ex_float_lexemes :
   lex2f64 (f64_lex (widen32 2147483648)) = Some (2 ^ 63) /\
   lex2f64 (f64_lex 1) = Some 1 /\ lex2f64 (f64_lex 9218868437227405311) = Some 9218868437227405311.
 Proof. vm_compute. repeat split; reflexivity. Qed.
+(* the comparison the checker uses accepts the denotation itself (strictly: no finding, no drift needed), and the text
+   the implementation should print parses and is accepted too *)
+Example ex_checker_accepts_denotation :
+  match pj_of exS exO [77] exM with
+  | Some p => pj_match false false p (pj_json p) = Some [] /\
+              match json_parse (json_print (pj_json p)) with
+              | Some j => pj_match false false p j = Some []
+              | None => False
+              end
+  | None => False
+  end.
+Proof. vm_compute. split; reflexivity. Qed.
 (* a NaN has no image *)
 Example ex_nan_no_image : pjson_of exS exO [77] [(4, VList true [VScalar K_FLOAT 2143289344])] = None.
 Proof. vm_compute. reflexivity. Qed.
